@@ -177,6 +177,34 @@ fn cmd_ruler(a: &[&str]) -> String {
 #[derive(Debug, Default, PartialEq)] struct TB(u32);
 #[derive(Debug, Default, PartialEq)] struct TS(String);
 
+// two DISTINCT types whose std::any::type_name is the same string (items of the same name in different blocks of one
+// function): a store keyed by the type's name instead of its id confuses them (seed C20-7)
+trait NumVal: 'static + std::fmt::Debug + Default { fn new(v: u32) -> Self; fn val(&self) -> u32; fn set(&mut self, v: u32); }
+fn oo(x: Option<String>) -> String { match x { None => "-".into(), Some(s) if s.is_empty() => "0".into(), Some(s) => s } }
+fn num_op<T: NumVal>(s: &mut ErasedSet, c: &str, v: u32) -> String {
+    match c {
+        "i" => oo(s.insert(T::new(v)).map(|x| x.val().to_string())),
+        "g" => oo(s.get::<T>().map(|x| x.val().to_string())),
+        "m" => oo(s.get_mut::<T>().map(|x| { let old = x.val(); x.set(v); old.to_string() })),
+        "o" => s.get_or_insert(T::new(v)).val().to_string(),
+        "d" => s.get_or_insert_default::<T>().val().to_string(),
+        "r" => oo(s.remove::<T>().map(|x| x.val().to_string())),
+        "h" => (s.contains::<T>() as u32).to_string(),
+        _ => panic!("harness: bad eset op"),
+    }
+}
+fn same_ops(s: &mut ErasedSet, which: u32, c: &str, v: u32) -> String {
+    if which == 5 {
+        #[derive(Debug, Default)] struct Same(u32);
+        impl NumVal for Same { fn new(v: u32) -> Self { Same(v) } fn val(&self) -> u32 { self.0 } fn set(&mut self, v: u32) { self.0 = v; } }
+        num_op::<Same>(s, c, v)
+    } else {
+        #[derive(Debug, Default)] struct Same(u32);
+        impl NumVal for Same { fn new(v: u32) -> Self { Same(v) } fn val(&self) -> u32 { self.0 } fn set(&mut self, v: u32) { self.0 = v; } }
+        num_op::<Same>(s, c, v)
+    }
+}
+
 fn cmd_eset(a: &[&str]) -> String {
     let mut s = ErasedSet::new();
     let mut out: Vec<String> = vec![];
@@ -188,6 +216,10 @@ fn cmd_eset(a: &[&str]) -> String {
         let mut it = rest.split(',');
         let t: u32 = it.next().filter(|x| !x.is_empty()).map(|x| x.parse().unwrap()).unwrap_or(0);
         let v: u32 = it.next().map(|x| x.parse().unwrap()).unwrap_or(0);
+        if (t == 5 || t == 6) && c != "c" && c != "l" {
+            out.push(same_ops(&mut s, t, c, v));
+            continue;
+        }
         let r = match c {
             "i" => match t {
                 0 => o(s.insert(Z0).map(|_| "z".into())),
